@@ -226,6 +226,12 @@ def _stmt(st, live, out):
         return live
     if isinstance(st, ast.With):
         return _block(st.body, live, out)
+    if isinstance(st, (ast.Continue, ast.Break)):
+        # only met when a loop body is summarised on its own (paths_of_block): the path ends this iteration here
+        for p in live:
+            p.kind, p.value, p.node = ('continue' if isinstance(st, ast.Continue) else 'break'), None, st
+            out.append(p)
+        return []
     raise _Unsupported()
 
 
